@@ -153,9 +153,8 @@ Variable E D : bytes -> bytes -> bytes.
 Variable seal : bytes -> bytes -> bytes -> bytes -> bytes.
 Variable open : bytes -> bytes -> bytes -> bytes -> option bytes.
 Variable md5 : bytes -> bytes.
-Variable osalt : option bytes.
 Hypothesis md5_len : forall m, length (md5 m) = 16%nat.
-Lemma md5_stdc x : md5_Sum (stdc E D seal open md5 osalt) x = Ret (md5 x).
+Lemma md5_stdc osalt x : md5_Sum (stdc E D seal open md5 osalt) x = Ret (md5 x).
 Proof. reflexivity. Qed.
 Lemma md5_zlen m : zlen (md5 m) = 16. Proof. unfold zlen. rewrite md5_len. reflexivity. Qed.
 
@@ -203,12 +202,129 @@ Ltac fin :=
   rewrite !fill_loop_S; unfold zeros; fold_nat; cbv beta iota zeta; unfold zlen; intros;
   repeat dec_fin; cbn [fill_loop cred_res]; reflexivity.
 
-Theorem code_fillCred : forall fuel cred salt secret, (4 <= fuel)%nat ->
+Theorem code_fillCred : forall osalt fuel cred salt secret, (4 <= fuel)%nat ->
   g_fillCred fuel (stdc E D seal open md5 osalt) cred salt secret = cred_res (fill_loop md5 3 0 (zeros 16) secret salt cred).
 Proof.
-  intros fuel cred salt secret Hf. do 4 (destruct fuel as [|fuel]; [lia|]). clear Hf.
+  intros osalt fuel cred salt secret Hf. do 4 (destruct fuel as [|fuel]; [lia|]). clear Hf.
   unfold g_fillCred. cbv beta iota zeta.
   pose proof (zlen_nonneg secret) as Hs. pose proof (zlen_nonneg salt) as Ht. pose proof (zlen_nonneg cred) as Hc.
   repeat ev1. all: fin.
+Qed.
+
+(* ---- the callers of fillCred *)
+Lemma fill_loop_len : forall r i prev secret salt cred c, fill_loop md5 r i prev secret salt cred = Ok c -> length c = length cred.
+Proof.
+  induction r as [|r IH]; intros i prev secret salt cred c H; cbn [fill_loop] in H; [congruence|].
+  destruct (Nat.ltb_spec (length cred) (i * STEP)); [discriminate|]. apply IH in H. rewrite H.
+  change copy_into with gocopy. rewrite app_length, gocopy_length, firstn_length, skipn_length. lia.
+Qed.
+Lemma fill_loop_no_err : forall r i prev secret salt cred e, fill_loop md5 r i prev secret salt cred <> Err e.
+Proof.
+  induction r as [|r IH]; intros i prev secret salt cred e H; cbn [fill_loop] in H; [discriminate|].
+  destruct (length cred <? i * STEP)%nat; [discriminate|]. apply IH in H. exact H.
+Qed.
+Local Notation X := (stdc E D seal open md5 _).
+Lemma ReadFull_stdc osalt buf n : io_ReadFull (stdc E D seal open md5 osalt) (rand_Reader (stdc E D seal open md5 osalt)) buf n =
+  match osalt with None => Ret (buf, (0, 1)) | Some s => Ret (s, (zlen s, 0)) end.
+Proof. reflexivity. Qed.
+Lemma Equal_stdc osalt a b : bytes_Equal (stdc E D seal open md5 osalt) a b = Ret (beq a b).
+Proof. reflexivity. Qed.
+Lemma front_all buf : front buf (zlen buf) = buf.
+Proof. unfold front, zlen. rewrite Nat2Z.id. apply firstn_all. Qed.
+Lemma back_all buf d : back buf (zlen buf) d = d.
+Proof. unfold back, zlen. rewrite Nat2Z.id, skipn_all. apply app_nil_r. Qed.
+Definition buf_res (buf : bytes) (r : res bytes) : M (bytes * Z) :=
+  match r with Ok d => Ret (d, 0) | Err e => Ret (buf, e) | Aes.Panic => GoSem.Panic end.
+Lemma CBCEncrypt_stdc osalt buf p k iv : cryptz_AESCBCEncrypt (stdc E D seal open md5 osalt) buf (zlen buf) p k iv = buf_res buf (cbc_encrypt E buf p k iv).
+Proof. cbn [cryptz_AESCBCEncrypt stdc]. unfold c_CBCEncrypt, c_buf. rewrite front_all. destruct (cbc_encrypt E buf p k iv); cbn [buf_res]; rewrite ?back_all; reflexivity. Qed.
+Lemma GCMEncrypt_stdc osalt buf p k n ad : cryptz_AESGCMEncrypt (stdc E D seal open md5 osalt) buf (zlen buf) p k n ad = buf_res buf (gcm_encrypt seal buf p k n ad).
+Proof. cbn [cryptz_AESGCMEncrypt stdc]. unfold c_GCMEncrypt, c_buf. rewrite front_all. destruct (gcm_encrypt seal buf p k n ad); cbn [buf_res]; rewrite ?back_all; reflexivity. Qed.
+Lemma GCMDecrypt_stdc osalt buf ct k n ad : cryptz_AESGCMDecrypt (stdc E D seal open md5 osalt) buf (zlen buf) ct k n ad = buf_res buf (gcm_decrypt open buf ct k n ad).
+Proof. cbn [cryptz_AESGCMDecrypt stdc]. unfold c_GCMDecrypt, c_buf. rewrite front_all. destruct (gcm_decrypt open buf ct k n ad); cbn [buf_res]; rewrite ?back_all; reflexivity. Qed.
+Lemma CBCDecrypt_stdc osalt buf ct k iv : cryptz_AESCBCDecrypt (stdc E D seal open md5 osalt) buf (zlen buf) ct k iv =
+  match cbc_decrypt D buf ct k iv with Ok (n, d) => Ret (d, (Z.of_nat n, 0)) | Err e => Ret (buf, (0, e)) | Aes.Panic => GoSem.Panic end.
+Proof. cbn [cryptz_AESCBCDecrypt stdc]. unfold c_CBCDecrypt. rewrite front_all. destruct (cbc_decrypt D buf ct k iv) as [[n d]| |]; rewrite ?back_all; reflexivity. Qed.
+Lemma splice_all l x : splice l 0 (zlen l) x = x.
+Proof. unfold splice, zlen. rewrite Nat2Z.id, skipn_all. cbn [Z.to_nat firstn app]. apply app_nil_r. Qed.
+Lemma m_slice_gen (l : list Z) a b : 0 <= a -> a <= b -> b <= zlen l ->
+  m_slice l a b = Ret (firstn (Z.to_nat b - Z.to_nat a) (skipn (Z.to_nat a) l)).
+Proof.
+  intros H0 H1 H2. unfold m_slice, GoSem.slice, zlen in *. destruct (Z.leb_spec 0 a); [|lia].
+  destruct (Z.leb_spec a b); [|lia]. destruct (Z.leb_spec b (Z.of_nat (length l))); [|lia]. reflexivity.
+Qed.
+Lemma m_slice_from (l : list Z) a : 0 <= a -> a <= zlen l -> m_slice l a (zlen l) = Ret (skipn (Z.to_nat a) l).
+Proof.
+  intros H0 H1. rewrite m_slice_gen by lia. unfold zlen in *. rewrite firstn_all2; [reflexivity|]. rewrite skipn_length. lia.
+Qed.
+
+Theorem code_fillSaltAndCred : forall osalt fuel salt cred secret, (4 <= fuel)%nat ->
+  g_fillSaltAndCred fuel (stdc E D seal open md5 osalt) salt cred secret =
+  match osalt with
+  | None => Ret (salt, (cred, E_SALT))
+  | Some s => GoSem.bind (cred_res (fill_loop md5 3 0 (zeros 16) secret s cred)) (fun c => Ret (s, (c, 0)))
+  end.
+Proof.
+  intros osalt fuel salt cred secret Hf. unfold g_fillSaltAndCred. rewrite ReadFull_stdc.
+  destruct osalt as [s|]; repeat first [ev1 | rewrite code_fillCred by assumption]; reflexivity.
+Qed.
+
+Lemma length_put d k src : (k <= length d)%nat -> length (put d k src) = length d.
+Proof. intros H. unfold put. rewrite app_length, gocopy_length, firstn_length, skipn_length. lia. Qed.
+Lemma masked_land n : Z.of_nat (masked n) = Z.land (Z.of_nat n) 15.
+Proof. unfold masked. change block_size_mask with 15. rewrite Z2Nat.id; [reflexivity|]. apply Z.land_nonneg. lia. Qed.
+Lemma key_iv_48 c : zlen c = 48 -> key_iv c = Ok (firstn 32 c, skipn 32 c).
+Proof.
+  intros H. unfold zlen in H. assert (L : length c = 48%nat) by lia. unfold key_iv, Crypt.slice. rewrite L.
+  change KEYLEN with 32%nat. change ((0 <=? 32)%nat && (32 <=? 48)%nat) with true. change ((32 <=? 48)%nat && (48 <=? 48)%nat) with true.
+  cbv iota. change (48 - 32)%nat with 16%nat. change (32 - 0)%nat with 32%nat. rewrite (firstn_all2 (n := 16%nat)); [reflexivity|]. rewrite skipn_length. lia.
+Qed.
+Lemma key_nonce_48 c : zlen c = 48 -> key_nonce c = Ok (firstn 32 c, firstn 12 (skipn 32 c)).
+Proof.
+  intros H. unfold zlen in H. assert (L : length c = 48%nat) by lia. unfold key_nonce, Crypt.slice. rewrite L.
+  change KEYLEN with 32%nat. change NONCE with 12%nat. reflexivity.
+Qed.
+Lemma with_header_ok dst s : (8 <= length dst)%nat -> with_header dst s = Ok (put (put dst 0 header) 8 s).
+Proof.
+  intros H. unfold with_header. cbv zeta. change copy_into with gocopy. rewrite gocopy_length.
+  destruct (Nat.ltb_spec (length dst) 8); [lia|]. reflexivity.
+Qed.
+Lemma land15_bounds x : 0 <= x -> 0 <= Z.land x 15 <= 15.
+Proof. intros H. replace (Z.land x 15) with (x mod 16); [pose proof (Z.mod_pos_bound x 16); lia|]. change 15 with (Z.ones 4). rewrite Z.land_ones by lia. reflexivity. Qed.
+Ltac ev2 := first
+ [ ev1
+ | rewrite code_fillCred by assumption
+ | rewrite code_fillSaltAndCred by assumption
+ | rewrite splice_all
+ | rewrite m_slice_from by lens
+ | rewrite m_slice_gen by lens
+ | rewrite Equal_stdc | rewrite CBCEncrypt_stdc | rewrite GCMEncrypt_stdc | rewrite GCMDecrypt_stdc | rewrite CBCDecrypt_stdc
+ | progress unfold E_SALT, E_CTLEN2, E_HDR_CBC, E_HDR
+ | progress autounfold with go2v_aux ].
+
+Theorem code_SaltBySecretCBCEncrypt : forall osalt fuel p secret, (4 <= fuel)%nat ->
+  (forall s, osalt = Some s -> length s = 8%nat) ->
+  g_SaltBySecretCBCEncrypt fuel (stdc E D seal open md5 osalt) p secret = bytes_res9 (salt_cbc_encrypt E md5 osalt p secret).
+Proof.
+  intros osalt fuel p secret Hf Hs. unfold g_SaltBySecretCBCEncrypt.
+  pose proof (land15_bounds (zlen p) (zlen_nonneg p)) as Hl. pose proof (zlen_nonneg p) as Hp.
+  repeat ev2.
+  destruct osalt as [s|].
+  2:{ repeat ev2. reflexivity. }
+  specialize (Hs s eq_refl).
+  change (fill_loop md5 3 0 (zeros 16) secret s (repeat 0 48)) with (fill_cred md5 secret s).
+  unfold salt_cbc_encrypt, salt_cbc_parts. 
+  destruct (fill_cred md5 secret s) as [c|e|] eqn:HF; cbn [cred_res Crypt.bind bytes_res9 GoSem.bind].
+  3: reflexivity. 2:{ apply fill_loop_no_err in HF. contradiction. }
+  assert (Lc : zlen c = 48) by (apply fill_loop_len in HF; unfold zlen; rewrite HF; reflexivity).
+  repeat ev2.
+  rewrite key_iv_48 by assumption. cbn [Crypt.bind].
+  rewrite with_header_ok by (unfold zeros; rewrite repeat_length; change BS with 16%nat; lia). cbn [Crypt.bind].
+  match goal with |- context [zeros ?n2] => match goal with |- context [repeat 0 (Z.to_nat ?z)] =>
+    replace n2 with (Z.to_nat z) by (unfold cbc_encrypt_len, zlen; rewrite masked_land; change BS with 16%nat; change aes_block_size with 16; unfold zlen in *; lia) end end.
+  fold_nat. change BS with 16%nat. unfold zeros. change header with v_fixedSaltHeader.
+  match goal with |- context [put (put ?d 0%nat ?h) 8%nat s] => set (DST := put (put d 0%nat h) 8%nat s);
+    assert (LD : (16 <= length DST)%nat) by (unfold DST; rewrite !length_put; rewrite ?length_put, ?repeat_length; lia) end.
+  destruct (Nat.ltb_spec (length DST) 16); [lia|].
+  match goal with |- context [buf_res _ ?r] => destruct r end; cbn [buf_res GoSem.bind bytes_res9]; cbv beta iota; rewrite ?firstn_skipn; reflexivity.
 Qed.
 End S.
